@@ -178,6 +178,14 @@ def _case(draw):
                 tal["attributes"] = "title s1"
             tpl = tpl + [{"t": "el", "tag": draw(st.sampled_from(["script", "style"])), "attrs": [["type", "text/x"]], "tal": tal, "metal": {},
                           "kids": [{"t": "text", "s": "x"}], "void": False}]
+    if mode == "skeleton" and draw(st.integers(0, 3)) == 0:
+        # a metal:use-macro whose path leads to plain context DATA (no macro, no template): whatever the interpreter makes of
+        # such a value, it is data
+        for i in range(draw(st.integers(1, 2))):
+            path = draw(st.sampled_from(["s1", "s2", "lst/0", "d1/k_a", "lst2/0", "d1/k_b/k_c", "f1"]))
+            how = "use-macro"  # (slot attributes take names, not paths)
+            tpl = tpl + [{"t": "el", "tag": "div", "attrs": [["id", "m%d" % i]], "tal": {}, "metal": {how: path},
+                          "kids": [{"t": "text", "s": "inside"}], "void": False}]
     c = {"mode": mode, "template": tpl, "ctx": ctx, "minimize": draw(st.booleans())}
     if mode == "restore" and draw(st.booleans()):
         # the include-with-parameter idiom: an element that defines a local AND inserts a compiled template from the
